@@ -109,9 +109,10 @@ class AllocatorAwarePointer
                 {
                     deallocate();
                     get() = nullptr;
+                    size() = 0;
                     propagate_on_container_copy_assignment(other);
+                    get() = AllocatorTraits::allocate(get_allocator(), other.size());
                     size() = other.size();
-                    get() = allocate();
                     return *this;
                 }
             }
@@ -120,8 +121,9 @@ class AllocatorAwarePointer
             {
                 deallocate();
                 get() = nullptr;
+                size() = 0;
+                get() = AllocatorTraits::allocate(get_allocator(), other.size());
                 size() = other.size();
-                get() = allocate();
             }
         }
         return *this;
